@@ -444,8 +444,9 @@ func (fn *fileNode) truncate(size int64) {
 // symlinkNode
 
 // delete removes all information from the node.
+// The target of the link is kept : it never changes once the link is created,
+// and path walks that found the link before its removal read it without holding the lock of the node.
 func (sn *symlinkNode) delete() {
-	sn.link = ""
 }
 
 // fillStatFrom returns a MemInfo (implementation of fs.FileInfo) from a symlinkNode named name.
